@@ -72,9 +72,33 @@ class C29(PropBase):
             opts["--library"] = "--library=posix"
         envs = [{"alloc": 1 + rng.next() % (1 << 30), "readdir_shuffle": 1, "dt_unknown": int(rng.chance(0.3)), "clock": 1500000000 + rng.below(400000000),
                  "env": env_of(rng), "seed": rng.next() % (1 << 30)} for _ in range(4 if tier == "thorough" else 3)]
-        return {"tree": proj["tree"], "units": proj["units"], "langs": proj["langs"], "opts": opts, "envs": envs,
-                "modes": ["text", "xml", "dump", "thread", "process"] if rng.chance(0.5) else rng.sample(["text", "xml", "dump", "thread", "process"], 3),
-                "jobs": rng.randint(2, 4)}
+        scn = {"tree": proj["tree"], "units": proj["units"], "langs": proj["langs"], "opts": opts, "envs": envs,
+               "modes": ["text", "xml", "dump", "thread", "process"] if rng.chance(0.5) else rng.sample(["text", "xml", "dump", "thread", "process"], 3),
+               "jobs": rng.randint(2, 4)}
+        if rng.chance(0.35):
+            # paths that only a careful total order keeps apart: names differing in letter case only (file or directory), names that
+            # are prefixes of each other, names with characters that sort around '/' and '.'
+            ctr = gen.Counter(); ctr.n = 700
+            for _ in range(rng.randint(1, 3)):
+                u = rng.choice(proj["units"])
+                d, b = (u.rsplit("/", 1) + [""])[:2] if "/" in u else ("", u)
+                kind = rng.below(4)
+                if kind == 0:
+                    nu = (d + "/" if d else "") + b[0].swapcase() + b[1:]
+                elif kind == 1:
+                    nu = (d.capitalize() if d else "Dir") + "/" + b
+                elif kind == 2:
+                    nu = (d + "/" if d else "") + b.rsplit(".", 1)[0] + rng.choice(["-x", "_x", "+x", " x", ".x"]) + "." + b.rsplit(".", 1)[1]
+                else:
+                    nu = (d + "/" if d else "") + b.rsplit(".", 1)[0] + "/" + b
+                if nu in scn["tree"] or nu == u:
+                    continue
+                t, _pid = gen.make_atom(rng, ctr, scn["langs"][u])
+                inc = ["#include <string>\n#include <vector>\n#include <list>"] if scn["langs"][u] == "cpp" else []
+                scn["tree"][nu] = inc + [t]
+                scn["units"] = scn["units"] + [nu]
+                scn["langs"][nu] = scn["langs"][u]
+        return scn
 
     def execute(self, scn, wd):
         # The heap layout produced by the seeded allocator depends on every allocation, including those that hold the
